@@ -643,6 +643,7 @@ Definition expect_Topic_PutMessages : list string :=
   ; "call atomic.AddUint64"
   ; "return"
   ; "}"
+  ; "set messageTotalBytes+="
   ; "}"
   ; "call atomic.AddUint64"
   ; "call atomic.AddUint64"
